@@ -440,10 +440,14 @@ def _run_optim(case, seed, td):
             real = cal.parameters
             other, _p, _k = build(layout, seed + 1, td, form=case.get("form", "list"))      # same keys, other boundaries
             cal.parameters = other.parameters
-            pyxel.run_mode(cal, proc.detector, proc.pipeline, with_inherited_coords=True)
+            # (both runs through Calibration.run_calibration with the SAME Processor object - run_mode builds a new one
+            #  per call)
+            cal.run_calibration(processor=proc, output_dir=None, with_inherited_coords=True, with_progress_bar=False)
             cal.parameters = real
             del LOG[:]
-        res = pyxel.run_mode(cal, proc.detector, proc.pipeline, with_inherited_coords=True)
+            res = cal.run_calibration(processor=proc, output_dir=None, with_inherited_coords=True, with_progress_bar=False)
+        else:
+            res = pyxel.run_mode(cal, proc.detector, proc.pipeline, with_inherited_coords=True)
         n_logged = len(LOG)
         # the simulated outputs attached to the result: one pipeline run per island with that island's champion
         np.asarray(res["/simulated/pixel"].compute().values)
